@@ -1,10 +1,148 @@
-import LinOp.C02.Model
+import LinOp.C02.Proofs
 import LinOp.Generated.C02Table
+/-!
+C02 — composition and structure-preserving rewrites never change the matrix.  Property theorems only.
+
+`Op` is the deep embedding of the operator classes, `denote` the matrix a class documents, and
+`add` / `addDiagonal` / `addJitter` / `matmulOp` / … the library's type-dispatching methods
+(LinOp/C02/Model.lean).  All statements hold for every operand of every class at every nesting depth
+and every size, over any commutative ring.
+-/
 namespace LinOp.C02
 open Op
+variable {α : Type} [CommRing α]
 
-/-- placeholder while the proofs are developed -/
-theorem zero_add_left {α : Type} [Zero α] [One α] [Add α] [Mul α] [Neg α] (n m : Nat) (b : Op α) :
-    add (.zero n m) b = .ok b := rfl
+/-- **`a + b` denotes `⟦a⟧ + ⟦b⟧` whichever class the dispatch picks** — all 23 × 23 pairs of
+constructors, arbitrary nesting (AddedDiag / Triangular / LowRankRootAddedDiag recurse into their
+components), Sum flattening, Kronecker → KroneckerProductAddedDiag / SumKronecker, root operands
+through `add_low_rank`.  A `.ok` result is never a wrong value. -/
+theorem add_value (a b r : Op α) (h : add a b = .ok r) (i j : Nat) :
+    r.denote i j = a.denote i j + b.denote i j := add_refines a b r h i j
+
+/-- **Zero is absorbed**: `Zero + b` is `b` itself and `a + Zero` is `a` itself for the classes whose
+ladder ends in the base class or in `SumLinearOperator.__add__` (no wrapper object is built). -/
+theorem zero_add_absorb (n m : Nat) (b : Op α) : add (.zero n m) b = .ok b := rfl
+
+theorem add_zero_absorb_base (a : Op α) (n m : Nat) : baseAdd a (.zero n m) = .ok a := rfl
+
+theorem add_zero_absorb_sum (a : Op α) (n m : Nat) : sumAdd a (.zero n m) = .ok a := rfl
+
+/-- **`add_diagonal` adds `diag(d)`** for the three accepted shapes of `d`, for every class (Diag stays
+Diag, Kronecker → KroneckerProductAddedDiag, LowRankRoot → LowRankRootAddedDiag, Triangular and the
+AddedDiag family recurse, Zero becomes a Diag, everything else becomes an AddedDiag). -/
+theorem addDiagonal_value (a r : Op α) (g : DiagArg α) (h : addDiagonal a g = .ok r) (i j : Nat) :
+    r.denote i j = a.denote i j + (if i = j then g.fn i else 0) := addDiagonal_refines a r g h i j
+
+/-- **`add_jitter` adds `c·I`**, including the Toeplitz override that only touches the first column entry. -/
+theorem addJitter_value (a r : Op α) (c : α) (h : addJitter a c = .ok r) (i j : Nat) :
+    r.denote i j = a.denote i j + (if i = j then c else 0) := addJitter_refines a r c h i j
+
+/-- **`a @ b` for an operator `b`** (rows of the result inside `a`'s row range): the structured results of
+`Zero.matmul`, `Identity.matmul`, `ConstantDiag.matmul`, `Diag.matmul` (× Dense, × Triangular(Dense),
+× Diag) and the lazy `MatmulLinearOperator` all denote the matrix product. -/
+theorem matmulOp_value (a b r : Op α) (h : matmulOp a b = .ok r) (i j : Nat) (hi : i < a.rows) :
+    r.denote i j = sumN a.cols fun k => a.denote i k * b.denote k j := matmulOp_refines a b r h i j hi
+
+/-- The Mul constructor's operand swap (larger root first) is invisible in the value. -/
+theorem mkMul_value (a b : Op α) (i j : Nat) : (mkMul a b).denote i j = a.denote i j * b.denote i j :=
+  mkMul_refines a b i j
+
+/-- **Defect D31 (code as it is)**: `IdentityLinearOperator._mul_matrix` returns `other`, so the model's
+`Identity * A` is `A`, whose off-diagonal entries differ from the elementwise product `I ∘ A`. -/
+theorem mulMatrix_identity_counterexample :
+    ∃ r : Op Int, mulMatrix {} id (.identity 2) (.dense 2 2 fun _ _ => 1) = .ok r ∧
+      r.denote 0 1 ≠ (Op.identity 2 : Op Int).denote 0 1 * (Op.dense 2 2 fun _ _ => (1 : Int)).denote 0 1 :=
+  ⟨_, rfl, by decide⟩
+
+/-- With the proposed fix (notes/C02_fix_3.diff) the same product is right. -/
+theorem mulMatrix_identity_fixed (n : Nat) (b : Op α) (hz : b.isZero = false) (i j : Nat) :
+    ∃ r, mulMatrix { identityMulFixed := true } id (.identity n) b = .ok r ∧
+      r.denote i j = (Op.identity n : Op α).denote i j * b.denote i j := by
+  refine ⟨.diag n fun i => b.denote i i, ?_, ?_⟩
+  · simp [mulMatrix, hz]
+  · by_cases hij : i = j <;> simp [denote, hij]
+
+/-- **Defect D04 (code as it is)**: `X - Zero` fails in the model exactly as in the library. -/
+theorem sub_zero_counterexample (S : ScalarOps Int) :
+    sub {} S (.identity 2 : Op Int) (.zero 2 2) = .error (.internal 4) := rfl
+
+/-! ### the dispatch model's case lists are the ladders in /repo's source (regenerated every run) -/
+open LinOp.Generated.C02
+
+/-- which classes define `__add__` themselves (= the left-operand cases of `add`). -/
+theorem table_add_overriders : overriders "__add__" =
+    ["LinearOperator", "AddedDiagLinearOperator", "DenseLinearOperator", "DiagLinearOperator",
+     "ConstantDiagLinearOperator", "KroneckerProductAddedDiagLinearOperator", "KroneckerProductLinearOperator",
+     "LowRankRootAddedDiagLinearOperator", "LowRankRootLinearOperator", "SumLinearOperator",
+     "TriangularLinearOperator", "ZeroLinearOperator"] := by decide +kernel
+
+theorem ladder_base_add : ladder "LinearOperator" "__add__" =
+    some ["other:ZeroLinearOperator", "other:DiagLinearOperator", "other:RootLinearOperator", "other:Tensor",
+          "other:numbers.Number"] := by decide +kernel
+theorem ladder_dense_add : ladder "DenseLinearOperator" "__add__" =
+    some ["other:DenseLinearOperator", "other:torch.Tensor"] := by decide +kernel
+theorem ladder_diag_add : ladder "DiagLinearOperator" "__add__" = some ["other:DiagLinearOperator"] := by decide +kernel
+theorem ladder_constdiag_add : ladder "ConstantDiagLinearOperator" "__add__" =
+    some ["other:ConstantDiagLinearOperator"] := by decide +kernel
+theorem ladder_tri_add : ladder "TriangularLinearOperator" "__add__" =
+    some ["other:DiagLinearOperator", "other:TriangularLinearOperator"] := by decide +kernel
+theorem ladder_kron_add : ladder "KroneckerProductLinearOperator" "__add__" =
+    some ["other:KroneckerProductDiagLinearOperator|ConstantDiagLinearOperator", "other:KroneckerProductLinearOperator",
+          "other:DiagLinearOperator"] := by decide +kernel
+theorem ladder_kpad_add : ladder "KroneckerProductAddedDiagLinearOperator" "__add__" =
+    some ["other:ConstantDiagLinearOperator"] := by decide +kernel
+theorem ladder_addeddiag_add : ladder "AddedDiagLinearOperator" "__add__" = some ["other:DiagLinearOperator"] := by
+  decide +kernel
+theorem ladder_lrr_add : ladder "LowRankRootLinearOperator" "__add__" = some ["other:DiagLinearOperator"] := by
+  decide +kernel
+theorem ladder_lrrad_add : ladder "LowRankRootAddedDiagLinearOperator" "__add__" = some ["other:DiagLinearOperator"] := by
+  decide +kernel
+theorem ladder_sum_add : ladder "SumLinearOperator" "__add__" =
+    some ["other:ZeroLinearOperator", "other:DiagLinearOperator", "other:SumLinearOperator", "other:LinearOperator",
+          "other:Tensor"] := by decide +kernel
+theorem ladder_zero_add : ladder "ZeroLinearOperator" "__add__" = some [] := by decide +kernel
+
+theorem table_mul_constant_overriders : overriders "_mul_constant" =
+    ["LinearOperator", "BlockLinearOperator", "DiagLinearOperator", "ConstantDiagLinearOperator",
+     "IdentityLinearOperator", "InterpolatedLinearOperator", "KroneckerProductDiagLinearOperator",
+     "LowRankRootAddedDiagLinearOperator", "MulLinearOperator", "RootLinearOperator", "SumLinearOperator",
+     "TriangularLinearOperator"] := by decide +kernel
+theorem table_mul_matrix_overriders : overriders "_mul_matrix" =
+    ["LinearOperator", "DiagLinearOperator", "ConstantDiagLinearOperator", "IdentityLinearOperator"] := by decide +kernel
+theorem table_mul_overriders : overriders "mul" = ["LinearOperator", "ZeroLinearOperator"] := by decide +kernel
+theorem table_matmul_overriders : overriders "matmul" =
+    ["LinearOperator", "BlockDiagLinearOperator", "DiagLinearOperator", "ConstantDiagLinearOperator",
+     "IdentityLinearOperator", "InterpolatedLinearOperator", "ZeroLinearOperator"] := by decide +kernel
+theorem table_add_diagonal_overriders : overriders "add_diagonal" =
+    ["LinearOperator", "AddedDiagLinearOperator", "DiagLinearOperator", "KroneckerProductLinearOperator",
+     "LowRankRootLinearOperator", "TriangularLinearOperator", "ZeroLinearOperator"] := by decide +kernel
+theorem table_add_jitter_overriders : overriders "add_jitter" =
+    ["LinearOperator", "BatchRepeatLinearOperator", "ToeplitzLinearOperator"] := by decide +kernel
+theorem ladder_diag_matmul : ladder "DiagLinearOperator" "matmul" =
+    some ["other:Tensor", "other:DenseLinearOperator", "other:DiagLinearOperator", "other:TriangularLinearOperator",
+          "other:BlockDiagLinearOperator"] := by decide +kernel
+theorem ladder_constdiag_matmul : ladder "ConstantDiagLinearOperator" "matmul" =
+    some ["other:ConstantDiagLinearOperator"] := by decide +kernel
+theorem ladder_base_mul : ladder "LinearOperator" "mul" =
+    some ["other:ZeroLinearOperator", "other:is_tensor", "other:LinearOperator", "other:is_tensor"] := by decide +kernel
+theorem ladder_base_mul_matrix : ladder "LinearOperator" "_mul_matrix" =
+    some ["self:DenseLinearOperator", "other:DenseLinearOperator"] := by decide +kernel
+theorem ladder_constdiag_mul_matrix : ladder "ConstantDiagLinearOperator" "_mul_matrix" =
+    some ["other:ConstantDiagLinearOperator"] := by decide +kernel
+/-- the inheritance facts the `isinstance` predicates of the model encode. -/
+theorem bases_kpdiag : basesOf "KroneckerProductDiagLinearOperator" =
+    some ["DiagLinearOperator", "KroneckerProductTriangularLinearOperator"] := by decide +kernel
+theorem bases_diag : basesOf "DiagLinearOperator" = some ["TriangularLinearOperator"] := by decide +kernel
+theorem bases_identity : basesOf "IdentityLinearOperator" = some ["ConstantDiagLinearOperator"] := by decide +kernel
+theorem bases_constdiag : basesOf "ConstantDiagLinearOperator" = some ["DiagLinearOperator"] := by decide +kernel
+theorem bases_kpad : basesOf "KroneckerProductAddedDiagLinearOperator" = some ["AddedDiagLinearOperator"] := by decide +kernel
+theorem bases_lrrad : basesOf "LowRankRootAddedDiagLinearOperator" = some ["AddedDiagLinearOperator"] := by decide +kernel
+theorem bases_addeddiag : basesOf "AddedDiagLinearOperator" = some ["SumLinearOperator"] := by decide +kernel
+theorem bases_chol : basesOf "CholLinearOperator" = some ["RootLinearOperator"] := by decide +kernel
+theorem bases_lrr : basesOf "LowRankRootLinearOperator" = some ["RootLinearOperator"] := by decide +kernel
+
+/-- hypotheses are satisfiable on a non-trivial instance: Kronecker + ConstantDiag. -/
+example : ∃ r : Op Int, add (.kron (.dense 1 1 fun _ _ => 2) (.dense 2 2 fun i j => ((i + j : Nat) : Int))) (.constDiag 2 3) = .ok r ∧
+    r.tree = "KroneckerProductAddedDiag(KroneckerProduct(Dense,Dense),ConstantDiag)" := ⟨_, rfl, by decide⟩
 
 end LinOp.C02
